@@ -299,6 +299,12 @@ def run_case(case):
         return {"violations": v, "obs": obs}
     if arr.tobytes() != before:
         v.append({"kind": "input-modified", "detail": f"{case['method']} modified its input"})
+    with np.errstate(all="ignore"):
+        again = np.asarray(ds.downscale(arr, tuple(factors)))
+    if again.shape != out.shape or again.tobytes() != np.ascontiguousarray(out).tobytes():
+        v.append({"kind": "second-call-differs",
+                  "detail": f"{case['method']} {case['dtype']} shape {shape} factors {factors}: "
+                  "downscaling the same array twice gives different results"})
     got = out.tolist()
     m = case["method"]
     isint = case["dtype"] in dx.INT_RANGE
